@@ -1,19 +1,16 @@
-// Command vh runs one property check (one batch of it) against the real code
-// of /repo and writes result records into --out.
-package main
+package core
 
 import (
 	"flag"
 	"fmt"
 	"os"
 	"strings"
-
-	"verif/harness/core"
 )
 
-func main() {
+// Main is the entry point of every check binary.
+func Main() {
 	if len(os.Args) < 2 {
-		fmt.Fprintln(os.Stderr, "usage: vh <ID> [flags]; ids:", core.IDs())
+		fmt.Fprintln(os.Stderr, "usage: vh <ID> [flags]; ids:", IDs())
 		os.Exit(2)
 	}
 	id := os.Args[1]
@@ -26,16 +23,16 @@ func main() {
 	only := fs.String("only", "", "stream:idx (replay one case)")
 	skip := fs.String("skip", "", "comma separated stream:idx to skip")
 	fs.Parse(os.Args[2:])
-	f := core.Lookup(id)
+	f := Lookup(id)
 	if f == nil {
-		fmt.Fprintln(os.Stderr, "unknown check", id, "known:", core.IDs())
+		fmt.Fprintln(os.Stderr, "unknown check", id, "known:", IDs())
 		os.Exit(2)
 	}
 	if *out == "" {
 		fmt.Fprintln(os.Stderr, "--out required")
 		os.Exit(2)
 	}
-	c, err := core.NewCtx(id, *tier, *seed, *batch, *nbatch, *out, *only, strings.Split(*skip, ","))
+	c, err := NewCtx(id, *tier, *seed, *batch, *nbatch, *out, *only, strings.Split(*skip, ","))
 	if err != nil {
 		fmt.Fprintln(os.Stderr, err)
 		os.Exit(2)
